@@ -57,14 +57,19 @@ def load_prop(prop: str):
 # --------------------------------------------------------------------------
 
 def _run_indices(prop: str, base_seed: int, tier: str, indices: List[int], want_samples: int):
-    from sim.core import rng_for, derive_seed
+    from sim.core import rng_for, derive_seed, CleanArmFailed, RunResult
     mod = load_prop(prop)
     out = []
     for idx in indices:
         try:
             rng = rng_for(base_seed, prop, idx)
             scenario = mod.gen(rng, tier, idx)
-            res = mod.run(scenario)
+            try:
+                res = mod.run(scenario)
+            except CleanArmFailed as e:
+                res = RunResult()
+                res.add(prop, "clean_arm_failed", "the fault-free arm failed, nothing to compare against: %s" % e)
+                res.digest = "clean_arm_failed"
             w = res.to_wire()
             w["idx"] = idx
             w["seed"] = derive_seed(base_seed, prop, idx)
@@ -126,8 +131,14 @@ def repo_dirty() -> bool:
 
 
 def run_scenario_once(prop: str, scenario: dict):
+    from sim.core import CleanArmFailed, RunResult
     mod = load_prop(prop)
-    return mod.run(scenario)
+    try:
+        return mod.run(scenario)
+    except CleanArmFailed as e:
+        res = RunResult()
+        res.add(prop, "clean_arm_failed", "the fault-free arm failed, nothing to compare against: %s" % e)
+        return res
 
 
 def replay_main(prop: str, path: str) -> int:
@@ -369,7 +380,7 @@ def write_replay(prop, base_seed, idx, run_seed, scenario, v, digest, mod, known
     final_v = v
     if shrink and scenario is not None:
         def still_fails(cand):
-            res = mod.run(cand)
+            res = run_scenario_once(prop, cand)
             for vv in res.violations:
                 if vv.cls == cls and match_known(known, vv.to_json()) is None:
                     return True
@@ -383,7 +394,7 @@ def write_replay(prop, base_seed, idx, run_seed, scenario, v, digest, mod, known
             final = scenario
         info = {"attempts": sh.attempts, "accepted": sh.accepted}
         try:
-            res = mod.run(final)
+            res = run_scenario_once(prop, final)
             vs = [vv for vv in res.violations if vv.cls == cls]
             if vs:
                 final_v = vs[0].to_json()
